@@ -7,6 +7,7 @@ sys.path.insert(0, os.path.dirname(os.path.abspath(__file__)))
 
 NAMES = ["Linear","Ease","In","Out","InOut","InSine","OutSine","InOutSine","InQuad","OutQuad","InOutQuad","InCubic","OutCubic","InOutCubic","InQuart","OutQuart","InOutQuart","InQuint","OutQuint","InOutQuint","InExpo","OutExpo","InOutExpo","InCirc","OutCirc","InOutCirc","InBack","OutBack","InOutBack"]
 FIELDS = ["x", "y", "n", "m"]
+TPM = 2     # ticks per millisecond in Grammar.tla
 
 
 def dec(ms, div):
@@ -39,17 +40,17 @@ def setters(d):
 
 def arg_tokens(a):
     k = a["k"]
-    if k == "dur":
-        ms, f = a["ms"], a["form"]
-        lit_s = ("%ds" % (ms // 1000)) if ms % 1000 == 0 else dec(ms, 1000) + "s"
+    if k in ("dur", "del"):
+        tk, f = a["tk"], a["form"]
+        lit_s = ("%ds" % (tk // (1000 * TPM))) if tk % (1000 * TPM) == 0 else dec(tk, 1000 * TPM) + "s"
+        # a whole number of milliseconds is written as an integer literal, or (one in three) as a float literal
+        lit_ms = (("%d.0ms" % (tk // TPM)) if tk % 3 == 0 else ("%dms" % (tk // TPM))) if tk % TPM == 0 else dec(tk, TPM) + "ms"
+        if k == "del": return "after " + (lit_s if f == "s" else lit_ms)
         if f == "s": return lit_s
         if f == "for_s": return "for " + lit_s
-        if f == "ms": return "%dms" % ms
-        if f == "ms_": return "{:,}ms".format(ms).replace(",", "_")
-        if f == "for_ms": return "for %dms" % ms
-    if k == "del":
-        ms = a["ms"]
-        return "after " + (("%ds" % (ms // 1000) if ms % 1000 == 0 else dec(ms, 1000) + "s") if a["form"] == "s" else "%dms" % ms)
+        if f == "ms": return lit_ms
+        if f == "ms_": return "{:,}ms".format(tk // TPM).replace(",", "_")
+        if f == "for_ms": return "for " + lit_ms
     if k == "rep": return "infinite" if a["n"] == -2 else "%dx" % a["n"]
     if k == "rev": return "reverse"
     if k == "ease": return ease_path(a["e"])
@@ -64,13 +65,40 @@ def sentence_tokens(args):
     return " ".join(arg_tokens(a) for a in args)
 
 
+# Names a macro expansion might plausibly bind itself: a caller's local of that name, used as a keyframe value,
+# must still mean the caller's local (the reading of a value expression does not depend on its spelling).
+HAZARD = ["position", "timeline", "builder", "keyframe", "time", "value", "values", "easing", "duration", "delay", "config", "data", "result",
+          "kf", "tl", "pos", "normalized_time", "frame", "start", "end", "repeat", "target", "this", "args", "tokens", "name", "keyframes",
+          "timeline_name", "t", "k", "b", "v", "p", "x", "y", "n", "m", "i", "e", "d", "s", "kfs", "from", "to", "percent", "seconds"]
+TYPES = ["f32", "f32", "i32", "i16"]
+
+
+def sentence_via_locals(args, rot):
+    """(let-bindings, tokens): the same sentence with every keyframe value spelled as a caller local"""
+    lets, toks, used = [], [], 0
+    for a in args:
+        if a["k"] != "kf":
+            toks.append(arg_tokens(a)); continue
+        pos = a["pos"]
+        head = {"from": "from", "to": "to"}.get(a["form"]) or (("%d%%" % (pos // 2)) if pos % 2 == 0 else dec(pos, 2) + "%")
+        fs = []
+        for i, v in enumerate(a["d"]):
+            if v:
+                name = HAZARD[(rot + used) % len(HAZARD)]; used += 1
+                if used > len(HAZARD): return None          # (names would repeat within one function)
+                lets.append("let %s: %s = %s;" % (name, TYPES[i], ("%d.0" % v[0]) if i < 2 else str(v[0])))
+                fs.append("%s: %s" % (FIELDS[i], name))
+        toks.append(head + " { " + ", ".join(fs) + " }")
+    return " ".join(lets), " ".join(toks)
+
+
 def twin_chain(args, ty="P4"):
     """builder chain under the documented reading (later argument of a kind wins; keyframes accumulate)"""
     out = "%s::timeline()" % ty
     for a in args:
         k = a["k"]
-        if k == "dur": out += ".duration_seconds(%d.0 / 1000.0)" % a["ms"]
-        elif k == "del": out += ".delay_seconds(%d.0 / 1000.0)" % a["ms"]
+        if k == "dur": out += ".duration_seconds(%s / 1000.0)" % dec(a["tk"], TPM)
+        elif k == "del": out += ".delay_seconds(%s / 1000.0)" % dec(a["tk"], TPM)
         elif k == "rep": out += ".repeat(Repeat::Infinite)" if a["n"] == -2 else ".repeat(Repeat::Times(%d))" % a["n"]
         elif k == "rev": out += ".reverse(true)"
         elif k == "ease": out += ".default_easing(%s)" % ease_path(a["e"])
@@ -105,7 +133,7 @@ def barg_tokens(a):
     k = a["k"]
     if k in ("dur", "del"):
         ms = a["t"] * 125
-        lit = (("%ds" % (ms // 1000)) if ms % 1000 == 0 else dec(ms, 1000) + "s") if a["form"].endswith("s") and not a["form"].endswith("ms") else "%dms" % ms
+        lit = (("%ds" % (ms // 1000)) if ms % 1000 == 0 else dec(ms, 1000) + "s") if a["form"].endswith("s") and not a["form"].endswith("ms") else (("%d.0ms" if ms % 375 == 0 else "%dms") % ms)
         if k == "del": return "after " + lit
         return ("for " if a["form"].startswith("for_") else "") + lit
     if k == "kf":
@@ -165,7 +193,8 @@ def block_twin(b, s0):
     elif d["form"] == "inline":
         dv = "{ let mut d = G4::default(); " + " ".join("d.%s = %s;" % (FIELDS[i], ("%d.0" % v[0]) if i < 2 else str(v[0])) for i, v in enumerate(d["vals"]) if v) + " d }"
     else: dv = g4_expr(d["vals"])      # expr / exprbase: the same value, written out in full
-    out = "{ let dv: G4 = %s; StateAnimatorBuilder::new().from_state(S4::S%d).from_values(dv.clone())" % (dv, s0)
+    # no values in the block = the builder's own default: from_values is not called at all
+    out = "{ let dv: G4 = %s; StateAnimatorBuilder::new().from_state(S4::S%d)%s" % (dv, s0, "" if d["form"] in ("none", "state") else ".from_values(dv.clone())")
     for arm in b["arms"]:
         for s in arm["sts"]:
             if len(arm["body"]) == 1: out += ".on(S4::S%d, %s)" % (s, btwin_chain(arm["body"][0]))
@@ -288,7 +317,9 @@ def main():
             f.write("pub const N: usize = %d;\n" % len(lines))
             # one function per sentence (a single giant match would need a giant stack frame)
             for i, l in enumerate(lines):
-                f.write("fn m%d() -> P4Timeline { timeline!(P4 %s) }\n" % (i, sentence_tokens(l["args"])))
+                via = sentence_via_locals(l["args"], i * 7) if i % 3 == 1 else None
+                if via: f.write("fn m%d() -> P4Timeline { %s timeline!(P4 %s) }\n" % (i, via[0], via[1]))
+                else: f.write("fn m%d() -> P4Timeline { timeline!(P4 %s) }\n" % (i, sentence_tokens(l["args"])))
                 f.write("fn b%d() -> P4Timeline { %s }\n" % (i, twin_chain(l["args"])))
             f.write("static MACRO_FNS: [fn() -> P4Timeline; %d] = [%s];\n" % (len(lines), ", ".join("m%d" % i for i in range(len(lines)))))
             f.write("static BUILDER_FNS: [fn() -> P4Timeline; %d] = [%s];\n" % (len(lines), ", ".join("b%d" % i for i in range(len(lines)))))
